@@ -27,6 +27,7 @@
 #include <crab/domains/term_equiv.hpp>
 #include <crab/domains/uf_domain.hpp>
 #include <crab/domains/value_partitioning_domain.hpp>
+#include <crab/domains/wrapped_interval_domain.hpp>
 
 namespace vp {
 using namespace crab::domains;
@@ -188,6 +189,13 @@ constexpr unsigned DOM_CAPS = NUM_BASE | CAP_ARRAY;
 #elif defined(VERIF_VARIANT_as_bool_int)
 using dom_t = as_bool_int_dom_t;
 constexpr unsigned DOM_CAPS = NUM_BASE | CAP_BIGCONST | CAP_ARRAY | CAP_BOOL;
+#elif defined(VERIF_VARIANT_wint)
+using dom_t = wrapped_interval_domain<z_number, varname_t>;
+constexpr unsigned DOM_CAPS = (NUM_BASE & ~CAP_CALL_INTRA) | CAP_SIMPLE_CST | CAP_BIGCONST;
+#define VERIF_WRAPPED 1
+// constants must be representable in the (signed) width of the 32-bit variables:
+// a condition x <= 2^31 has no agreed meaning on a 32-bit x
+#define VERIF_CONST_CAP 2147483647
 #else
 #error "unknown VERIF_VARIANT domain"
 #endif
